@@ -391,8 +391,11 @@ def discharge_one(job):
             res.update(status='unsat', solver='cvc5-1.0.3')
         elif r2 == 'sat':
             # cvc5 decided sat: fetch a model in a second run (strings need --strings-fmf to terminate)
+            # cvc5 alone says sat (z3 ran out of time or gave up): tentative.  Its reading of a few operators differs from
+            # z3's in corner cases and it has answered sat on obligations z3 proves when given time, so this counts as a
+            # refutation only after z3 agrees on the retry or the counter-model replays on the real code
             model, raw = _cvc5_model(txt, timeout_ms)
-            res.update(status='sat', solver='cvc5-1.0.3', model=model, raw_model=raw)
+            res.update(status='sat', solver='cvc5-1.0.3', model=model, raw_model=raw, tentative=True)
         else:
             r3, dt3 = _run_cli([Z3_OLD, '-T:%d' % max(1, int(timeout_ms / 1000)), '-smt2'], smt2, timeout_ms / 1000.0)
             res['tried'].append(('z3-4.8.12', r3, round(dt3, 3)))
